@@ -477,8 +477,8 @@ def parse_route_path( route_path, trailer_parser=None ):
             if route_path and isinstance( route_path, dict ):
                 # a dict; validate as eg. [{"port":<int>,"link":<int>/"<ip>"}]
                 route_path	= [route_path]
-            assert isinstance( route_path, list ), \
-                "route_path invalid; must resolve to list, not: %r" % ( route_path, )
+            assert isinstance( route_path, (type(None),bool,int,list) ), \
+                "route_path invalid; must resolve to null/0/false or list, not: %r" % ( route_path, )
         except Exception as exc:
             # Handle multiple route_path strings like: "1/0/2/1.2.3.4", by splitting on even '/'.
             # Ceases splitting when port_link fails to recognize a component; the remainder is
